@@ -415,6 +415,54 @@ mod std_part {
         out::count("block_device_requests", 8);
     }
 
+    /// The same backing file through several constructions while its LENGTH changes in between,
+    /// requests built from fresh FileOffsets and from clones of the FileOffset an earlier region
+    /// reports: every request is judged against the file as it is at that moment.
+    pub fn file_length_changes(stats: &mut Stats) {
+        let rw = libc::PROT_READ | libc::PROT_WRITE;
+        let f = std::sync::Arc::new(temp_file(16384));
+        let mut carried: Option<FileOffset> = None;
+        let mut keep = vec![];
+        // (new file length, request offset, request size)
+        for (step, (flen, off, size)) in [(16384u64, 0u64, 8192usize), (4096, 0, 8192), (4096, 0, 4096), (65536, 0, 32768), (65536, 4096, 61440), (8192, 4096, 8192), (8192, 4096, 4096), (0, 0, 4096), (12288, 8192, 4096)].into_iter().enumerate() {
+            f.set_len(flen).expect("ftruncate");
+            let want_ok = off.checked_add(size as u64).map_or(false, |e| e <= flen);
+            for route in 0..3u8 {
+                let fo = match (route, &carried) {
+                    // a clone of what an earlier region reports, re-aimed at this request's offset
+                    (1, Some(c)) => FileOffset::from_arc(c.arc().clone(), off),
+                    // the very FileOffset object an earlier region reports (when its offset fits)
+                    (2, Some(c)) if c.start() == off => c.clone(),
+                    _ => FileOffset::from_arc(f.clone(), off),
+                };
+                let res = guarded(|| MmapRegion::<()>::build(Some(fo), size, rw, libc::MAP_SHARED | libc::MAP_NORESERVE));
+                match res {
+                    Err(p) => v(&format!("panic/file-length-changes/{}", panic_sig(&p)), J::s(p)),
+                    Ok(Ok(reg)) => {
+                        stats.ok += 1;
+                        if !want_ok {
+                            v("file-length-changes/unsafe-request-accepted", jobj! {"step" => step, "route" => route, "file_len_now" => flen, "offset" => off, "size" => size});
+                        }
+                        carried = reg.file_offset().cloned();
+                        keep.push(reg);
+                    }
+                    Ok(Err(e)) => {
+                        if want_ok {
+                            v(&format!("file-length-changes/safe-request-refused/{}", rerr(&e)), jobj! {"step" => step, "route" => route, "file_len_now" => flen, "offset" => off, "size" => size});
+                        } else {
+                            stats.refused += 1;
+                        }
+                    }
+                }
+                out::key(&format!("file-length-changes|step{}|route{}|{}", step, route, want_ok), true);
+                out::eval(1);
+            }
+            // regions that map beyond the new end of file must not be touched any more: drop them
+            keep.clear();
+        }
+        out::count("file_length_change_requests", 27);
+    }
+
     pub fn check_file_offset_grid() {
         for fl in [0u64, 1, 4095, 4096, 4097, 8192] {
             let f = temp_file(fl);
@@ -802,6 +850,7 @@ pub fn run(args: &Args) {
             std_part::grid(&mut stats);
             std_part::raw_ptr_grid(&mut stats);
             std_part::block_device_backing(&mut stats);
+            std_part::file_length_changes(&mut stats);
             std_part::guest_base_grid();
             std_part::random(args, &mut stats);
         });
